@@ -281,10 +281,15 @@ class Hugr(Mapping[Node, NodeData], Generic[OpVarCov]):
         parent = self[node].parent
         if parent:
             self[parent].children.remove(node)
-        for inp, _ in self.incoming_links(node):
-            self._links.delete_right(_SubPort(inp))
-        for out, _ in self.outgoing_links(node):
-            self._links.delete_left(_SubPort(out))
+        # remove every link of every port, including the order ports
+        for offset in range(-1, self.num_in_ports(node)):
+            inp = node.inp(offset)
+            for out in list(self.linked_ports(inp)):
+                self.delete_link(out, inp)
+        for offset in range(-1, self.num_out_ports(node)):
+            out = node.out(offset)
+            for inp in list(self.linked_ports(out)):
+                self.delete_link(out, inp)
 
         weight, self._nodes[node.idx] = self._nodes[node.idx], None
 
@@ -376,10 +381,21 @@ class Hugr(Mapping[Node, NodeData], Generic[OpVarCov]):
             sub_offset = next(
                 i for i, inp in enumerate(self.linked_ports(src)) if inp == dst
             )
-            self._links.delete_left(_SubPort(src, sub_offset))
         except StopIteration:
             return
-        # TODO make sure sub-offset is handled correctly
+        src_sub = _SubPort(src, sub_offset)
+        dst_sub = self._links.fwd[src_sub]
+        self._links.delete_left(src_sub)
+        # keep the sub-offsets of both ports contiguous: move the links at higher
+        # sub-offsets down by one
+        nxt = src_sub.next_sub_offset()
+        while nxt in self._links.fwd:
+            self._links.insert_left(src_sub, self._links.fwd[nxt])
+            src_sub, nxt = nxt, nxt.next_sub_offset()
+        nxt = dst_sub.next_sub_offset()
+        while nxt in self._links.bck:
+            self._links.insert_right(dst_sub, self._links.bck[nxt])
+            dst_sub, nxt = nxt, nxt.next_sub_offset()
 
     def root_op(self) -> OpVarCov:
         """The operation of the root node.
